@@ -49,6 +49,19 @@ def gen_case(seed, i):
         for k in range(rng.choice([300, 600])):
             for side in ("p", "q"):
                 world.entries.append({"t": "f", "p": "%s/big/%s%d/y%d" % (roots[-1], side, k % 5, k), "c": {"fam": 1000 + k, "len": 2 + k % 50, "flips": []}})
+    dev2 = None
+    if nroots >= 2 and not cfg.get("transform") and rng.random() < 0.15:
+        # the last input path lies on a SECOND device of another kind (device-pin hook), shipped constants (no knob
+        # overrides, which would level the per-device prefix lengths), and classes that span the two devices with
+        # one or two members on either side, longer than any per-device minimum prefix
+        dev2 = roots[-1]
+        cfg["knobs"] = {}
+        cfg["kind"], cfg["kind2"] = rng.choice([("ssd", "hdd"), ("hdd", "ssd"), ("unknown", "hdd"), ("hdd", "unknown"), ("ssd", "unknown")])
+        for k_, (n_, na, nb) in enumerate([(20000, 1, 1), (40000, 2, 1), (70000, 1, 2)]):
+            for j in range(na):
+                world.entries.append({"t": "f", "p": "%s/xd%d_%d" % (roots[0], k_, j), "c": {"fam": 800 + k_, "len": n_, "flips": []}})
+            for j in range(nb):
+                world.entries.append({"t": "f", "p": "%s/xd%d_%d" % (roots[-1], k_, j + 5), "c": {"fam": 800 + k_, "len": n_, "flips": []}})
     if cfg.get("transform"):
         cfg["cache"] = rng.random() < 0.5          # warm-cache runs matter most with transforms
         for e in world.entries:
@@ -92,7 +105,7 @@ def gen_case(seed, i):
     if rng.random() < 0.15:
         gflags += ["-H"]
     fm = rng.choice(["none", "none", "short", "delay"])
-    return {"i": i, "cfg": cfg, "world": world.to_json(), "roots": rootargs, "filter": filt, "gflags": gflags,
+    return {"i": i, "cfg": cfg, "world": world.to_json(), "roots": rootargs, "filter": filt, "gflags": gflags, "dev2": dev2,
             "fault": fm, "seam_seed": rng.randint(1, 10**9)}
 
 
@@ -188,7 +201,7 @@ def run_case(case):
         World.from_json(case["world"]).materialise(rd.world)
         roots = [os.path.join(rd.world.encode(), s2b(r)) for r in case["roots"]]
         args = gen.cfg_args(cfg) + filter_args(case["filter"]) + case["gflags"] + ["-f", "json"]
-        env = gen.cfg_env(cfg)
+        env = gen.cfg_env(cfg, rd, case.get("dev2"))
         sel, unt, exp = expected(case, rd)
         traces = []
         n_inv = 0
